@@ -21,7 +21,7 @@ def unique_cells(n, nc, dtype, start=0):
         span = int(info.max) - int(info.min) + 1
         return ((v + span // 2) % span - span // 2).astype(dt) if v.size and v.max() > info.max \
             else (v - (v.max() // 2 if v.size else 0)).astype(dt)
-    return (v.astype(dt) * dt.type(0.5) - dt.type(3))
+    return (v.astype(dt) * dt.type(0.5) - dt.type(3)).astype(dt)      # (arithmetic returns native byte order)
 
 
 def compositions(n):
